@@ -270,7 +270,7 @@ where
     // library's thread-local / process-wide state therefore survives from a case to its
     // neighbours (similar inputs: same names, same offsets), and when a case fails we can tell
     // deterministically whether it fails by itself or because of what ran before it.
-    let chunk = (n / 256).clamp(1, 32);
+    let chunk = (n / 64).clamp(4, 32).min(n.max(1));
     let nchunks = (n + chunk - 1) / chunk;
     (0..nchunks).into_par_iter().for_each(|c| {
         if stats.past_cap() || stats.elapsed() > stats.wall_cap_s {
